@@ -36,7 +36,7 @@ RULE = (
     "applicable in the current public/consumer-visible state, or 'end') on the real component inside a real "
     "Simulation; all sequences up to the length bound are enumerated by the choice explorer, each exactly once. "
     "non-trivial: mq = a message was redelivered, dead-lettered, or answered (ack/reject) while no longer in flight; "
-    "topic = publishes overlapped or followed an unsubscribe / re-subscribe; eventlog = a retention sweep expired "
+    "topic = publishes overlapped, followed an unsubscribe / re-subscribe, or a subscription changed during a fan-out; eventlog = a retention sweep expired "
     "records or two appends overlapped; group = a membership change arrived while another rebalance was pending, "
     "a member re-joined, or >= 2 members were in the group; commit = a commit lower than an earlier one of that "
     "member was issued; outbox = an entry was written while earlier entries were still pending; idem = a key was "
@@ -66,9 +66,13 @@ def _mq_jobs(tier):
     jobs = []
     for consumers in (1, 2):
         alpha = ["pub", "poll", "ack", "rejq", "rejd", "tmo"] + [f"{a}{k}" for k in range(consumers) for a in ("sub", "unsub")]
-        for M in (0, 1, 2):
-            for lat in (0.0, 0.25):
-                cfg = {"consumers": consumers, "M": M, "lat": lat}
+        cfgs = [({"consumers": consumers, "M": M, "lat": lat}, n) for M in (0, 1, 2) for lat in (0.0, 0.25)]
+        if consumers == 2:
+            # delivery latency longer than a tick: subscribe / unsubscribe / ack / time-out land inside a
+            # delivery's latency window (weakened oracle there, see MQWorld.long)
+            cfgs += [({"consumers": 2, "M": M, "lat": 1.25}, n if tier == "quick" else n - 1) for M in (0, 2)]
+        for cfg, n_cfg in cfgs:
+            if True:
                 plen = 2 if tier == "quick" else 3
                 jobs.append(("mq", cfg, (), plen - 1))
                 for pre in itertools.product(alpha, repeat=plen):
@@ -77,7 +81,7 @@ def _mq_jobs(tier):
                         continue
                     if pre[0].startswith("sub0") or (consumers == 2 and pre[0] == "unsub1"):
                         continue
-                    jobs.append(("mq", cfg, pre, n))
+                    jobs.append(("mq", cfg, pre, n_cfg))
     return jobs, n
 
 
@@ -86,8 +90,10 @@ def _topic_jobs(tier):
     jobs = []
     for subs in (2, 3):
         alpha = ["pub", "pub2", "pubsync"] + [f"{a}{k}" for k in range(subs) for a in ("sub", "unsub")]
-        for lat in (0.0, 0.25):
-            cfg = {"subs": subs, "lat": lat, "initial": 1}
+        cfgs = [{"subs": subs, "lat": lat, "initial": 1} for lat in (0.0, 0.25)]
+        # fan-out longer than a tick: subscribe / unsubscribe / publish land inside the latency window
+        cfgs += [{"subs": subs, "lat": 0.75, "initial": init} for init in sorted({2, subs})]
+        for cfg in cfgs:
             jobs.append(("topic", cfg, (), 1))
             for pre in itertools.product(alpha, repeat=2):
                 jobs.append(("topic", cfg, pre, n))
@@ -118,6 +124,7 @@ def run_mq(run, tier, seed):
     jobs, n = _mq_jobs(tier)
     d = run.driver("mq", {"max_ops": n, "ops": ["pub", "poll", "ack", "rejq", "rejd", "tmo", "sub<k>", "unsub<k>", "end"],
                           "consumers": [1, 2], "max_redeliveries": [0, 1, 2], "delivery_latency_s": [0.0, 0.25],
+                          "long_latency_configs": "2 consumers, max_redeliveries {0,2}, latency 1.25 s (max_ops 6 quick / 7 thorough)",
                           "redelivery_delay_s": MQ.RD_S, "max_published": 3, "subspaces": len(jobs)})
     _collect(run, d, pmap(MQ.explore_space, rotate(jobs, seed), chunksize=4), t0)
 
@@ -127,7 +134,8 @@ def run_topic(run, tier, seed):
     jobs, n = _topic_jobs(tier)
     d = run.driver("topic", {"max_ops": n, "ops": ["pub", "pub2 (two publishes on one instant)", "pubsync",
                                                   "sub<k>", "unsub<k>", "end"],
-                             "subscribers": [2, 3], "delivery_latency_s": [0.0, 0.25], "max_published": 4,
+                             "subscribers": [2, 3], "delivery_latency_s": [0.0, 0.25, "0.75 (fan-out of 2-3 subscribers spans 1-2 ticks)"],
+                             "initially_subscribed": "1 (latency 0 / 0.25), 2 or all (latency 0.75)", "max_published": 4,
                              "subspaces": len(jobs)})
     _collect(run, d, pmap(MQ.explore_space, rotate(jobs, seed), chunksize=4), t0)
 
